@@ -14,7 +14,7 @@ NEG=[
  ("C03","null-guard-split","aggregator/group_aggregator.go","\t\tif fieldVal == nil && !ga.shouldAllowNullValues(aggType) {\n\t\t\tcontinue\n\t\t}","\t\tif fieldVal == nil {\n\t\t\tif !ga.shouldAllowNullValues(aggType) {\n\t\t\t\tcontinue\n\t\t\t}\n\t\t}"),
  ("C05","early-return-merge","stream/stream.go","\tanalyticResults, pass := s.applyWhereAndAnalytic(dataMap)\n\tif !pass {\n\t\treturn nil, nil\n\t}\n\tresult, emit := s.projectDirectRow(dataMap, analyticResults)\n\tif !emit {\n\t\treturn nil, nil\n\t}\n\ts.mOutput.Inc()","\tanalyticResults, pass := s.applyWhereAndAnalytic(dataMap)\n\tif pass {\n\t\tif result, emit := s.projectDirectRow(dataMap, analyticResults); emit {\n\t\t\ts.mOutput.Inc()\n\t\t\ts.callSinksAsync([]map[string]any{result})\n\t\t\treturn result, nil\n\t\t}\n\t}\n\treturn nil, nil\n}\n\nfunc (s *Stream) unusedTail(result map[string]any) (map[string]any, error) {"),
  ("C14","when-split","stream/analytic.go","\tif fe.whenCond != nil && !fe.whenCond.Evaluate(row) {","\tif fe.whenCond == nil {\n\t} else if !fe.whenCond.Evaluate(row) {"),
- ("C10","gap-before","window/session_window.go","\t} else if timestamp.After(*s.slot.End) {","\t} else if s.slot.End.Before(timestamp) {"),
+ ("C10","gap-before","window/session_window.go","\t} else if !timestamp.Before(*s.slot.End) {","\t} else if !s.slot.End.After(timestamp) {"),
  ("C08","keep-ge","window/sliding_window.go","\t\tif !item.Timestamp.Before(nextWindowStart) {\n\t\t\tnewData = append(newData, item)","\t\tif item.Timestamp.After(nextWindowStart) || item.Timestamp.Equal(nextWindowStart) {\n\t\t\tnewData = append(newData, item)"),
  ("C08","in-place-filter","window/sliding_window.go","\tnewData := make([]types.Row, 0)\n\tfor _, item := range sw.data {\n\t\tif !item.Timestamp.Before(nextWindowStart) {\n\t\t\tnewData = append(newData, item)\n\t\t}\n\t}\n\tsw.data = newData","\tnewData := sw.data[:0]\n\tfor _, item := range sw.data {\n\t\tif !item.Timestamp.Before(nextWindowStart) {\n\t\t\tnewData = append(newData, item)\n\t\t}\n\t}\n\tsw.data = newData"),
  ("C15","accept-test-reordered","cep/engine.go","\t\tif hasAccept(r.states) && !anyAccept(succ) {","\t\tif !anyAccept(succ) && hasAccept(r.states) {"),
